@@ -23,7 +23,7 @@ def held_items(dev):
         if dev._output is not None:
             out.append(dev._output)
     if isinstance(dev, Buffer):
-        out.extend(p for _, p in dev._buffer)
+        out.extend(dev.stored_parts)
     if isinstance(dev, PartBatcher) and dev._in_progress_batch is not None:
         out.append(dev._in_progress_batch)
     return out
